@@ -26,6 +26,6 @@ Make it realistic: the kind of slip a maintainer could make while refactoring or
 
 DELIVERABLES, all in {wt}/_seed/ :
   1. patch.diff   -- output of `git -C {wt} diff -- src` (the change; src only)
-  2. demo.py      -- a small standalone program that exits 0 (prints OK) on the ORIGINAL code and exits non-zero (assertion error with a clear message) WITH your change applied. It must only use pyhf's public behaviour relevant to the property. Run it as: PYTHONPATH={wt}/src /venv/bin/python {wt}/_seed/demo.py . Verify both directions yourself (use `git -C {wt} stash` / `git -C {wt} stash pop` to test the original).
+  2. demo.py      -- a small standalone program that exits 0 (prints OK) on the ORIGINAL code and exits non-zero (assertion error with a clear message) WITH your change applied. It must only use pyhf's public behaviour relevant to the property. Run it as: PYTHONPATH={wt}/src /venv/bin/python {wt}/_seed/demo.py . Verify both directions yourself. Do NOT use `git stash` (the stash is shared with other worktrees): save your change with `git -C {wt} diff -- src > {wt}/_seed/patch.diff`, test the original with `git -C {wt} apply -R {wt}/_seed/patch.diff`, then re-apply with `git -C {wt} apply {wt}/_seed/patch.diff`.
   3. NOTES.md     -- which clause of the property is broken, exactly what is needed for it to manifest, why the existing tests do not notice, the exact test commands you ran and their pass/fail counts.
 Leave the change applied in the worktree when you finish. In your final answer give a 10-line summary (files changed, what breaks, trigger, test results).""")
